@@ -90,7 +90,9 @@ pub fn gen(rng: &mut Rng, thorough: bool, out: &mut Sink) {
             None => continue,
         };
         let core_bytes = format!("OK {:016x}", crate::c19::fnv(&tok.to_vec()));
-        let corpus = crate::c19::digest_texts(rng.next() % 100000, ntexts);
+        let mut corpus = crate::c19::digest_texts(rng.next() % 100000, ntexts);
+        // one large text of many lines (several kilobytes): a wrapper must hand it to the core as one text
+        corpus.push((0..170).map(|i| format!("line {} of a long text, with  spaces and words\n", i)).collect::<String>());
         for (ci, ctor) in ctors.iter().enumerate() {
             // quick tier: the full op list on the first two constructors, a short one on the others
             let full = thorough || ci < 2;
